@@ -15,7 +15,7 @@ RULE = ("(a) templates: position in {input, vars, action, task input, with.items
         "retry.count, retry.delay, when, publish, publish on a transition with several targets beside a fail command, output} x kind in {missing key, wrong type, unknown function, division "
         "by zero, undefined variable (assigned on another path only)} x {YAQL, Jinja; bare, two expressions embedded in "
         "text, inside a Jinja block statement, beside a Jinja raw block} x (input / vars also with the conductor persisted and restored before its first call) x point in {start, mid-run, after a "
-        "join, loop iteration 2, after pause/resume, during rerun, while canceling, on the late answer of a pending action after the workflow was canceled}; (b) failpoints: for generated definitions the healthy "
+        "join, loop iteration 2, after pause/resume, during rerun, while canceling, on the late answer of a pending action after the workflow was canceled, on the late first acknowledgement of a task handed out just before the cancel}; (b) failpoints: for generated definitions the healthy "
         "run's evaluator calls are counted and the run is repeated with the k-th call raising, for every k (sampled "
         "above a cap); asserted: no exception leaves an API call, an error entry records the failure (naming the task "
         "for task-level positions), the workflow ends failed (or stays canceled), nothing is offered afterwards; "
@@ -27,7 +27,7 @@ POSITIONS = ["input", "vars", "action", "tinput", "items", "concurrency", "delay
              "retry_delay", "when", "publish", "publish_multi", "output"]
 KINDS = ["missing_key", "wrong_type", "unknown_fn", "div_zero", "undefined", "string_value"]
 STRING_VALUE_POSITIONS = ("items", "concurrency", "delay", "retry_count", "retry_delay")
-POINTS = ["start", "mid", "join", "loop2", "resume", "rerun", "canceling", "canceled_pending"]
+POINTS = ["start", "mid", "join", "loop2", "resume", "rerun", "canceling", "canceled_pending", "canceled_before_ack"]
 # language x form: a bare expression, two expressions embedded in text, a Jinja block statement around the
 # expression, a Jinja raw block beside it
 LANGS = ["yaql", "jinja", "yaql_text", "jinja_text", "jinja_block", "jinja_raw"]
@@ -85,6 +85,8 @@ def template(position, kind, lang, point):
         return None
     if point == "rerun" and position == "publish_multi":
         return None  # a default rerun after a fail command is the zone of finding F8 (the command is staged as a task)
+    if point == "canceled_before_ack" and (position not in ("retry_count", "retry_delay") or form or kind == "undefined"):
+        return None  # what is evaluated when the first acknowledgement of a task arrives
     if point == "canceled_pending" and (position not in ("when", "publish", "retry_when") or form):
         return None  # only what is evaluated when the late answer of a pending action arrives
     if point == "canceling" and position not in ("when", "publish", "publish_multi", "retry_when"):
@@ -173,6 +175,12 @@ def template(position, kind, lang, point):
         T["t0"] = task(next=[{"when": ok, "do": "x"}])
         T["x"] = X
         plan = "pending_cancel"
+    elif point == "canceled_before_ack":
+        # x is handed out by a poll, the workflow is canceled before the provider acknowledges it (nothing is active, so it is
+        # canceled at once), the acknowledgement arrives late
+        T["t0"] = task(next=[{"when": ok, "do": "x"}])
+        T["x"] = X
+        plan = "cancel_before_ack"
     elif point == "rerun":
         T["t0"] = task(next=[{"when": ok, "do": "t1"}])
         T["t1"] = task(next=[{"when": ok, "do": "x"}])
@@ -286,6 +294,15 @@ def drive(run, plan, pol):
                 break
             run.complete(pol.pick(run))
         run.request("canceling")
+        explore.run_free(run, pol, start=False)
+    elif plan == "cancel_before_ack":
+        run.request("running")
+        run.poll()
+        while run.inflight:
+            run.complete(pol.pick(run))
+            if not run.inflight:
+                break
+        run.poll(mid="canceling")  # the poll that hands out x; the request lands before its acknowledgement
         explore.run_free(run, pol, start=False)
     elif plan == "pending_cancel":
         run.request("running")
@@ -473,7 +490,7 @@ def jobs(tier, seed):
         # containment depends on a guard other than the evaluator's own exception type
         js = [j for i, j in enumerate(js) if i % 3 == seed % 3] + [j for i, j in enumerate(js) if i % 3 != seed % 3][:2]
         combos = [(p, k, l, pt) for p in POSITIONS for k in KINDS for l in LANGS for pt in POINTS]
-        always = [i for i, c in enumerate(combos) if c[1] == "string_value" or c[3] in ("canceling", "canceled_pending") or c[0].startswith("retry_")
+        always = [i for i, c in enumerate(combos) if c[1] == "string_value" or c[3] in ("canceling", "canceled_pending", "canceled_before_ack") or c[0].startswith("retry_")
                   or ("_" in c[2] and c[3] == "mid") or (c[0] == "publish_multi" and c[3] in ("mid", "join"))]
         js += [dict(fn="templates", lo=i, hi=i + 1, name="templates") for i in always]
     P = dict(p_items=0.2, p_retry=0.25, p_ainput=0.5, p_pub=0.8, p_expr_count=0.5, p_expr_conc=0.5, p_delay=0.1, nmax=6)
